@@ -10,6 +10,7 @@ import (
 	"bytes"
 	"encoding/json"
 	"fmt"
+	xtxtar "golang.org/x/tools/txtar"
 	"os"
 	"os/exec"
 	"path/filepath"
@@ -178,6 +179,9 @@ func checkContain(root string, c containCase) string {
 	if anyOutside && err == nil {
 		return "no-error: an entry name is absolute or climbs out through '..' but no error was reported"
 	}
+	if err != nil && c.Pre == "" && !anyOutside && plainNames(c.Names) {
+		return fmt.Sprintf("spurious-error: every entry name is a plain path inside the directory, nothing is in the way, and yet: %v", err)
+	}
 	if err == nil {
 		for i, n := range c.Names {
 			p := filepath.Join(dirRel, filepath.Clean(filepath.FromSlash(n)))
@@ -194,6 +198,23 @@ func checkContain(root string, c containCase) string {
 		}
 	}
 	return ""
+}
+
+// plainNames: every name is already clean (no empty, "." or ".." segment, no
+// trailing slash), relative, not repeated, and none is a directory on the way to another.
+func plainNames(names []string) bool {
+	for i, n := range names {
+		if n == "" || n == "." || filepath.Clean(n) != n || filepath.IsAbs(n) || strings.ContainsAny(n, "\x00\n\r") || strings.TrimSpace(n) != n {
+			return false
+		}
+		for j, m := range names {
+			// a file is never overwritten: a repeated name is refused
+			if strings.HasPrefix(m, n+"/") || (j != i && m == n) {
+				return false
+			}
+		}
+	}
+	return true
 }
 
 func containNames() []string {
@@ -375,7 +396,7 @@ func checkRoundTrip(root string, c rtCase, st *rtStats) string {
 		if withNL != "" && !strings.HasSuffix(withNL, "\n") {
 			withNL += "\n"
 		}
-		plain := utf8.ValidString(f.Content) && (!dotted(f.Path) || has(c.Flags, "-a")) && (!txtar.NeedsQuote([]byte(withNL)) || has(c.Flags, "-quote"))
+		plain := utf8.ValidString(f.Content) && (!dotted(f.Path) || has(c.Flags, "-a")) && (!(holdsMarker(withNL) || holdsMarker(strings.ReplaceAll(withNL, "\r\n", "\n"))) || has(c.Flags, "-quote"))
 		if _, ok := got[f.Path]; !ok {
 			if plain {
 				return fmt.Sprintf("plain text file %q = %q is missing after the round trip (archive %q)", f.Path, f.Content, archive.String())
@@ -386,6 +407,15 @@ func checkRoundTrip(root string, c rtCase, st *rtStats) string {
 		}
 	}
 	return ""
+}
+
+// holdsMarker: stored as a file body, would s change how an archive parses?
+// Decided by the independent implementation of the format (which knows nothing
+// of lines ending in \r\n: the caller also asks about the text with those
+// endings normalised).
+func holdsMarker(s string) bool {
+	a := xtxtar.Parse(xtxtar.Format(&xtxtar.Archive{Files: []xtxtar.File{{Name: "f", Data: []byte(s)}}}))
+	return !(len(a.Comment) == 0 && len(a.Files) == 1 && a.Files[0].Name == "f" && string(a.Files[0].Data) == s)
 }
 
 type kase struct {
@@ -477,6 +507,13 @@ func main() {
 		}
 		if strings.TrimSpace(n) == n && n != "" {
 			cases = append(cases, containCase{Names: []string{n}, NoDir: true, ViaX: true})
+		}
+	}
+	// several entries below a directory (or with a name) that begins with two
+	// dots and is nevertheless inside: the second one finds it in place
+	for _, pair := range [][]string{{"..a/b", "..a/c"}, {"..a", "..a"}, {"...", "..."}, {".../x", ".../y"}, {"a/..b/c", "a/..b/d"}, {"..a/b", "..a/b"}, {"..a/b/c", "..a/d"}, {"a../b", "a../c"}, {"..", "..a/b"}, {"..a/b", "../x"}} {
+		for _, nd := range []bool{false, true} {
+			cases = append(cases, containCase{Names: pair, NoDir: nd}, containCase{Names: pair, NoDir: nd, ViaX: true})
 		}
 	}
 	second := []string{"a", "b/a", "../x", "a/../../y", "/abs", "a/b"}
@@ -572,6 +609,12 @@ func main() {
 		}
 	}
 	rec(0, nil)
+	// bodies in which a line that only looks like a marker comes before a real one
+	for _, p := range []string{"a", "d/b"} {
+		for _, c := range []string{"\n-- \n-- a --\n", "x\n-- y\n-- m --\n", "-- y\n-- m --\n", "-- m -- \nz\n-- n --\n", "--  -- --\n", "x\n-- a -- b --\n", "-- y\n--m --\n-- m--\n", "x\n-- y\n-- z\n-- m --"} {
+			trees = append(trees, []treeFile{{p, c}}, []treeFile{{p, c}, {"z", "x\n"}})
+		}
+	}
 	flagSets := [][]string{nil, {"-a"}, {"-quote"}, {"-a", "-quote"}}
 	var rts []rtCase
 	for ti, t := range trees {
